@@ -57,10 +57,14 @@ theorem body_fromString (mem : List Nat) (len : Nat) (hb : ∀ b ∈ mem, b < 25
     | oob => simp
     | ok b0 =>
       have hb0 := rdR_lt hb hr
-      simp only [Res.bind_ok, body_length b0 hb0, utf8IsAscii, decide_eq_true_eq, CodecBody.fromString_utf8Offsets, utf8Offsets, sub32]
-      by_cases ha : b0 &&& 128 = 0
-      · simp only [ha, if_true]
-      · simp only [ha, if_false]
+      simp only [Res.bind_ok, body_length b0 hb0, CodecBody.fromString_utf8Offsets, utf8Offsets, sub32]
+      by_cases ha : utf8IsAscii b0 = true
+      · have ha' := ha
+        simp only [utf8IsAscii, decide_eq_true_eq] at ha'
+        simp only [ha, ha', if_true]
+      · have ha' := ha
+        simp only [utf8IsAscii, decide_eq_true_eq] at ha'
+        simp only [ha, ha', if_false, Bool.false_eq_true]
         by_cases hl : len < utf8Length b0
         · simp only [hl, if_true]
         · simp only [hl, if_false]
@@ -82,7 +86,7 @@ theorem body_fromStringS (s : List Nat) (hb : ∀ b ∈ s, b < 256) : CodecBody.
 
 theorem body_isValid_loop (mem : List Nat) (end_ : Nat) (hb : ∀ b ∈ mem, b < 256) :
     ∀ (fuel p len : Nat), end_ - p < fuel → len < 18446744073709551616 →
-      CodecBody.isValid_loop1 mem end_ fuel p len end_ = isValidLoop mem end_ p len := by
+      CodecBody.isValid_loop1 mem end_ fuel p end_ len = isValidLoop mem end_ p len := by
   intro fuel
   induction fuel with
   | zero => intro p len h; omega
@@ -139,18 +143,18 @@ theorem body_isValidS (s : List Nat) (fuel : Nat) (hb : ∀ b ∈ s, b < 256) (h
 
 /-- `append(data, size, str)`: the loop over the code point array -/
 theorem body_appendArr_loop :
-    ∀ (cps : List Nat) (pre : List Nat) (fuel size : Nat) (str : List Nat) (res : Bool), cps.length < fuel →
-      CodecBody.appendArr_loop1 (pre ++ cps) (pre ++ cps).length fuel pre.length size str res (pre ++ cps).length =
+    ∀ (cps : List Nat) (pre : List Nat) (fuel : Nat) (str : List Nat) (res : Bool), cps.length < fuel →
+      CodecBody.appendArr_loop1 (pre ++ cps) (pre ++ cps).length fuel pre.length (pre ++ cps).length str res =
         .ok (res && (appendAll cps).1, str ++ (appendAll cps).2) := by
   intro cps
   induction cps with
   | nil =>
-    intro pre fuel size str res hf
+    intro pre fuel str res hf
     cases fuel with
     | zero => simp at hf
     | succ n => simp [CodecBody.appendArr_loop1, appendAll]
   | cons c rest ih =>
-    intro pre fuel size str res hf
+    intro pre fuel str res hf
     cases fuel with
     | zero => simp at hf
     | succ n =>
@@ -161,7 +165,7 @@ theorem body_appendArr_loop :
       simp only [hlt, if_true, hrd, Res.bind_ok, body_append]
       have e : pre ++ c :: rest = (pre ++ [c]) ++ rest := by simp
       have e2 : pre.length + 1 = (pre ++ [c]).length := by simp
-      rw [e, e2, ih (pre ++ [c]) n size _ _ (by simpa using hf)]
+      rw [e, e2, ih (pre ++ [c]) n _ _ (by simpa using hf)]
       have ea : appendAll (c :: rest) = (match append c with
           | some bs => ((appendAll rest).1, bs ++ (appendAll rest).2)
           | none => (false, (appendAll rest).2)) := by rw [appendAll]; cases append c <;> rfl
@@ -171,7 +175,7 @@ theorem body_appendArr_loop :
 theorem body_appendArr (cps : List Nat) (fuel : Nat) (str : List Nat) (hf : cps.length < fuel) :
     CodecBody.appendArr fuel cps cps.length 0 cps.length str = .ok ((appendAll cps).1, str ++ (appendAll cps).2) := by
   unfold CodecBody.appendArr
-  have := body_appendArr_loop cps [] fuel cps.length str true hf
+  have := body_appendArr_loop cps [] fuel str true hf
   simpa using this
 
 theorem body_toStringArr (cps : List Nat) (fuel : Nat) (hf : cps.length < fuel) :
